@@ -250,6 +250,64 @@ class NPNanVal(pysym.NumpyProxy):
         return np.isnan(a)
 
 
+def h_nr_step_nan(nstate, pattern):
+    """real PFlow.nr_step on residual arrays with not-a-number entries: the mismatch it reports must not pass a tolerance test"""
+    def h(I):
+        import andes.routines.pflow as PF
+
+        class NPX(NPNanVal):
+            def argmax(self, a, *args, **kw):
+                flat = list(np.ravel(a))
+                for k, v in enumerate(flat):
+                    if isinstance(v, NaNVal):
+                        return k                   # numpy: the first not-a-number is the maximum
+                return np.argmax(a, *args, **kw)
+        step = pysym.rebind(PF.PFlow.nr_step, np=NPX(), logger=_Log(), sparse=lambda blocks: 'A') if I.symbolic else \
+            pysym.rebind(PF.PFlow.nr_step, logger=_Log(), sparse=lambda blocks: 'A')
+        n, m = nstate, len(pattern) - nstate
+        vals = [I.real(f'r{i}') for i in range(n + m)]
+        arr = np.empty(n + m, dtype=object) if I.symbolic else np.zeros(n + m)
+        for i in range(n + m):
+            arr[i] = (NaNVal() if I.symbolic else np.nan) if pattern[i] else vals[i]
+        tol = I.real('tol')
+        I.assume(LT(0, tol))
+        dae = NS(n=n, m=m, f=arr[:n], g=arr[n:], x=I.zeros(n), y=I.zeros(m), fx=0, fy=0, gx=0, gy=0, x_name=['x'] * n, y_name=['y'] * m)
+        sysm = NS(dae=dae, j_update=lambda models: None, vars_to_models=lambda: None)
+        zero = I.zeros(n + m)
+        pf = NS(system=sysm, config=NS(method='NR', n_factorize=4, linsolve=0), niter=0, models={}, res=I.zeros(n + m),
+                fg_update=lambda: None, solver=NS(worker=NS(new_A=False), solve=lambda A, b: zero, linsolve=lambda A, b: zero))
+        mis = step(pf)
+        small = mis < tol
+        return [('a residual that is not a number is never reported as a mismatch below the tolerance', NOT(small) if not isinstance(small, (bool, np.bool_)) else (not small))]
+    return h
+
+
+def h_criteria(I):
+    """one pass of the real TDS.run loop with the real stability criterion on symbolic rotor angles: an angle spread beyond the
+    limit ends the run as a failure (busted), a spread inside the limit does not"""
+    import types as _t
+    from andes.routines.tds import TDS
+    import andes.routines.criteria as CR
+    from checks import c06
+    body, test, epi, cuts = c06.cut_loop()
+    tds, system, cfg, S, stored, fired, conv = c06.make_tds(I, 3, 3, conv_fix=True, fixt_fix=True)
+    cfg.criteria = 1
+    cfg.ddelta_limit = 180
+    d0, d1 = I.real('delta_0'), I.real('delta_1')
+    system.dae.x = I.arr('delta_0', 'delta_1')
+    system.SynGen = NS(delta_addr=[0, 1])
+    dd = pysym.rebind(CR.deltadelta, np=pysym.NPX) if I.symbolic else CR.deltadelta
+    tds.check_criteria = _t.MethodType(pysym.rebind(TDS.check_criteria, deltadelta=dd), tds)
+    I.assume(test(tds, system, system.dae, cfg))
+    body(tds, system, system.dae, cfg)
+    spread = d0 - d1
+    lim = float(np.deg2rad(180))
+    beyond = OR(LT(lim, spread), LT(lim, -spread))
+    inside = AND(LT(spread, lim), LT(-spread, lim))
+    return [('an accepted step whose rotor-angle spread exceeds the limit ends the run as a failure', IMPLIES(beyond, bool(tds.busted))),
+            ('a spread inside the limit does not stop the run', IMPLIES(inside, not bool(tds.busted)))]
+
+
 def h_test_init_nan(pattern):
     """residual vector with NaN entries at the positions of `pattern` (the other entries symbolic)"""
     def h(I):
@@ -378,6 +436,10 @@ def job(spec):
         return H.run('TDS.run epilogue with an earlier failure', h_exit_code_kept(), region=lambda v, c: c)
     if kind == 'pf2':
         return H.run(f'PFlow.run twice[max_iter={arg}]', h_pflow_twice(arg), max_paths=6000, region=lambda v, c: c.split(': ')[-1])
+    if kind == 'nrnan':
+        return H.run(f'PFlow.nr_step[{arg[0]} state(s), NaN pattern {arg[1]}]', h_nr_step_nan(*arg), region=lambda v, c: c)
+    if kind == 'crit':
+        return H.run('TDS.run loop body with the real stability criterion', h_criteria, max_paths=4000, region=lambda v, c: c)
     if kind == 'tinan':
         return H.run(f'TDS.test_init[NaN pattern {arg}]', h_test_init_nan(arg), region=lambda v, c: c)
     if kind == 'ti':
@@ -402,7 +464,7 @@ def main():
     import andes.routines.eig as EG
     import andes.system as SY
     import andes.main as MN
-    ck.encodes(PF.PFlow.nr_solve, PF.PFlow.run, TD.TDS.test_init, TD.TDS.run, EG.EIG._pre_check, EG.EIG.run, SY.System.setup, MN.run)
+    ck.encodes(PF.PFlow.nr_step, PF.PFlow.nr_solve, PF.PFlow.run, TD.TDS.test_init, TD.TDS.run, EG.EIG._pre_check, EG.EIG.run, SY.System.setup, MN.run)
     thorough = core.tier() == 'thorough'
     ck.bound(newton='max_iter in {0, 1, 2}' + (', 3' if thorough else ''), residual_vector='n <= 4' if thorough else 'n <= 3', cases='<= 2 per invocation')
     ck.stub('nr_step -> arbitrary non-negative mismatch per iteration', 'np.isnan(...).any() -> free boolean', 'init/summary/report -> no-ops',
@@ -410,7 +472,7 @@ def main():
     ck.assume('NaN is modelled by the free boolean of the isnan test (Newton loops) and by an absorbing not-a-number object with IEEE comparison semantics at fixed positions (test_init)')
     ck.out('NaN propagation inside numpy/C', 'unparsable input files (file I/O)', 'step-level facts: see C04/C06; solver singular path: C16')
     jobs = [('nr', k) for k in ((0, 1, 2, 3) if thorough else (0, 1, 2))] + [('pf', (k, 2)) for k in ((0, 1, 2, 3) if thorough else (0, 1, 2))] + [('pf', (1, 0))]
-    jobs += [('keep', 0), ('pf2', 1)] + [('ti', n) for n in ((1, 2, 3, 4) if thorough else (1, 2, 3))] + [('tinan', p) for p in ((1,), (1, 0), (0, 1), (0, 1, 0), (1, 1))] + [('refuse', 'TDS'), ('refuse', 'EIG'), ('setup', 0)]
+    jobs += [('keep', 0), ('pf2', 1)] + [('ti', n) for n in ((1, 2, 3, 4) if thorough else (1, 2, 3))] + [('tinan', p) for p in ((1,), (1, 0), (0, 1), (0, 1, 0), (1, 1))] + [('nrnan', a) for a in ((0, (1,)), (0, (0, 1)), (0, (1, 0)), (1, (1, 0)), (1, (0, 1)), (1, (0, 1, 0)))] + [('refuse', 'TDS'), ('refuse', 'EIG'), ('setup', 0), ('crit', 0)]
     jobs += [('main', (1, False)), ('main', (2, True)), ('main', (2, False))]
     ck.merge(core.pmap(job, jobs))
     ck.sample({'PFlow.run': 'mismatch sequence mis0, mis1, ... >= 0, tol > 0, nan_seen_k booleans'})
